@@ -252,17 +252,29 @@ class HeapFn(cxx2gal.LoopFn):
             return self.L(x, with_lv)
         return super().incdec(n, k)
 
+    def is_opaque_obj(self, q):
+        return self.rec_name(q) in self.cfg.get("opaque_classes", [])
+
     def rvalue(self, lv, k):
         if lv[0] == "var":
             return k(lv[1])
         if lv[0] != "cell":
             raise Unsupported("byte memory in a heap-flavour function")
+        if self.is_opaque_obj(lv[2]):
+            v = self.tmp("v")
+            return "(match hload_int mem %s with None => Oob | Some %s => %s end)" % (lv[1], v, k(v))
         if self.is_record(lv[2]) or re.search(r"\[\d+\]$", norm_type(lv[2])):
             raise Unsupported("a record or array used as a value (%s)" % lv[2])
         v = self.tmp("v")
         if self.coqtype_of(lv[2]) == "hptr":
             return "(match hload_ptr mem %s with None => Oob | Some %s => %s end)" % (lv[1], v, k(v))
         return "(match hload_int mem %s with None => Oob | Some %s => %s end)" % (lv[1], v, k(v))
+
+    def assign_opaque(self, lv, v, k):
+        if lv[0] != "cell" or not self.is_opaque_obj(lv[2]):
+            raise Unsupported("assignment between objects that are not opaque members")
+        self.stores = True
+        return "(match hstore mem %s (VInt %s) with None => Oob | Some mem => %s end)" % (lv[1], v, k(v))
 
     def assign(self, lv, v, k):
         if lv[0] == "var":
@@ -291,6 +303,13 @@ class HeapFn(cxx2gal.LoopFn):
                     return self.E(self.inner(x)[1], lambda sz: (
                         "(let %s := HPtr (List.length mem) 0 in let mem := mem ++ [repeat (VInt 0) %d] in "
                         "let evs := evs ++ [HAllocRec nx %s %s] in let nx := nx + 1 in %s)") % ("pnew", cells, "pnew", sz, k("pnew")))
+        if kd == "MemberExpr" and self.is_opaque_obj(qual(n)):
+            return self.L(n, lambda lv: self.rvalue(lv, k))     # an object of an opaque class read as a value: the integer identifying it
+        if kd == "CXXOperatorCallExpr" and n.get("inner") and isinstance(self.calls.get("operator="), dict) and \
+                self.calls["operator="].get("assign_opaque") and self.callee_name(inn[0]) == "operator=":
+            # opaqueMember = value: the cell takes the integer identifying the value
+            return self.L(inn[1], lambda lv: self.E(inn[2], lambda v: (
+                self.assign_opaque(lv, v, k))))
         if kd in ("CXXNullPtrLiteralExpr", "GNUNullExpr"):
             return k("0")
         if kd == "StringLiteral" and n.get("value") in self.cfg.get("string_literals", {}):
@@ -348,9 +367,16 @@ class HeapFn(cxx2gal.LoopFn):
                 a = inn[1]
                 while a.get("kind") in SKIP or (a.get("kind") in CASTS and a.get("castKind") in ("ArrayToPointerDecay", "NoOp")):
                     a = self.inner(a)[0]
+                ctext, cnum = spec0["print_event"] if isinstance(spec0["print_event"], list) else ("PText", "PNum")
                 if a.get("kind") == "StringLiteral":
-                    return "(let evs := evs ++ [PText %s] in %s)" % (coq_text(c_unescape(a["value"])), k("0"))
-                return self.E(inn[1], lambda v: "(let evs := evs ++ [PNum %s] in %s)" % (v, k("0")))
+                    return "(let evs := evs ++ [%s %s] in %s)" % (ctext, coq_text(c_unescape(a["value"])), k("0"))
+                return self.E(inn[1], lambda v: "(let evs := evs ++ [%s %s] in %s)" % (cnum, v, k("0")))
+            if isinstance(spec0, dict) and spec0.get("recv_value"):
+                # x.asCharString() on an opaque text: the text itself
+                callee = inn[0]
+                while callee.get("kind") in ("ImplicitCastExpr", "ParenExpr"):
+                    callee = self.inner(callee)[0]
+                return self.E(self.inner(callee)[0], k)
             if isinstance(spec0, dict) and spec0.get("recv_field"):
                 # an accessor of a modelled record: the call is the receiver's field
                 rec, fld = spec0["recv_field"]
@@ -514,6 +540,9 @@ class HeapFn(cxx2gal.LoopFn):
             tgt = self.strip(self.inner(n)[0])
             if not self.is_local_ref(tgt):
                 flags.add("store")
+        if kd == "CXXOperatorCallExpr" and isinstance(self.calls.get("operator="), dict) and self.calls["operator="].get("assign_opaque"):
+            flags.add("store")
+            flags.add("mem")
         if kd in ("CXXMemberCallExpr", "CallExpr"):
             try:
                 spec = self.calls.get(self.callee_name(self.inner(n)[0]))
